@@ -99,7 +99,7 @@ def args_tokens(a):
         out += expr_tokens(x)
     out.append(str(len(named)))
     for n, x in named:
-        out += [n] + expr_tokens(x)
+        out += [norm(n)] + expr_tokens(x)
     return out + _opt(rest, expr_tokens)
 
 
@@ -107,8 +107,8 @@ def params_tokens(p):
     ps, rest = p
     out = [str(len(ps))]
     for n, d in ps:
-        out += [n] + _opt(d, expr_tokens)
-    return out + _opt(rest, lambda r: [r])
+        out += [norm(n)] + _opt(d, expr_tokens)
+    return out + _opt(rest, lambda r: [norm(r)])
 
 
 def block_tokens(b):
@@ -132,9 +132,9 @@ def stmt_tokens(s):
             out += expr_tokens(c) + block_tokens(b)
         return out + _opt(s[2], block_tokens)
     if k == "for":
-        return ["FOR", s[1]] + expr_tokens(s[2]) + expr_tokens(s[3]) + ["1" if s[4] else "0"] + block_tokens(s[5])
+        return ["FOR", norm(s[1])] + expr_tokens(s[2]) + expr_tokens(s[3]) + ["1" if s[4] else "0"] + block_tokens(s[5])
     if k == "each":
-        return ["EACH", str(len(s[1]))] + list(s[1]) + expr_tokens(s[2]) + block_tokens(s[3])
+        return ["EACH", str(len(s[1]))] + [norm(v) for v in s[1]] + expr_tokens(s[2]) + block_tokens(s[3])
     if k == "while":
         return ["WHILE"] + expr_tokens(s[1]) + block_tokens(s[2])
     if k == "func":
@@ -1344,6 +1344,10 @@ D3_TREES = [
      ("block", "rule", (("read", 0), ("include", "m1", (("read", 0),)), ("assign", 0, 20), ("include", "m1", (("read", 0),))))),
     # for_import variant: the imported file declares the variable in the importer's frame
     (("global", 0, 10), ("block", "rule", (("read", 0), ("import", "i1", (("assign", 0, 20),)), ("read", 0)))),
+    # seeded change m1 (insert_var_last did not refresh the cache): loop variable named like the
+    # variable that was read last
+    (("global", 2, 1), ("read", 2), ("each", 2, (2, 3), (("read", 2),)), ("read", 2)),
+    (("global", 0, 1), ("block", "rule", (("read", 0), ("each", 0, (2,), (("read", 0), ("assign", 0, 5), ("read", 0))), ("read", 0)))),
     # loop variable, closure, re-declaration
     (("global", 1, 5), ("block", "rule", (("each", 1, (6, 7), (("read", 1),)), ("mixin", "m1", (("read", 1), ("assign", 1, 8), ("read", 1))),
                                           ("read", 1), ("include", "m1", None), ("assign", 1, 9), ("include", "m1", None), ("read", 1)))),
